@@ -5,6 +5,12 @@ Correspondence: model coq/model/Resolver.v `resolve tg ah t` against
 Oracle (independent of the model): no UnknownOperation left, every other node kept, layout only changed by
 add_head in front of operands 2.. of resolved operations, explicit target / And-Or / And throughout, same
 truth table, idempotence, input unmodified.
+
+Object sharing (finding F24): the model is value-based (a node has no identity), the code keys its Lucene-mode
+memory by `id()` of a node.  Trees in which one node OBJECT occurs at several positions are fed to the code too:
+the result must be what the code returns for an equal tree made of distinct objects (`unshare`), position by
+position; the model is compared with that unshared result.  Deviations are classified F24 only when they are
+exactly the ones `f24_positions` predicts from the INPUT.
 """
 import copy
 import hashlib
@@ -112,6 +118,79 @@ class RGen:
         return self.fin(T.Not(sub()))
 
 
+    def inner(self):
+        """content of an object that will be shared: an implicit operation with explicit ones around / inside"""
+        T, r = self.T, self.r
+        x = r.random()
+        if x < 0.4:
+            e = self.fin(r.choice([T.OrOperation, T.OrOperation, T.AndOperation])(self.leaf(), self.leaf()))
+            ops = [self.leaf(), e]
+            if r.random() < 0.3:
+                ops.append(self.fin(r.choice([T.OrOperation, T.AndOperation])(self.leaf())))
+            if r.random() < 0.3:
+                r.shuffle(ops)
+            return self.fin(T.UnknownOperation(*ops))
+        if x < 0.5:
+            return self.leaf()
+        return self.ltree(r.randrange(1, 4), False)
+
+    def stree(self, depth):
+        """trees with SHARED OBJECTS: operations (And/Or/Unknown/Bool, nested) whose operands are drawn, with
+        repetition, from a small pool of objects — groups, fields, field groups, negations, words (the objects
+        `_first_nonop_parent` can return when they sit below operations only) and a few operation objects"""
+        T, r = self.T, self.r
+        pool = []
+        for _ in range(r.randrange(1, 4)):
+            k = r.choice(["group", "group", "group", "field", "fieldgroup", "not", "leaf", "op", "nested"])
+            if k == "group":
+                pool.append(self.fin(T.Group(self.inner())))
+            elif k == "field":
+                pool.append(self.fin(T.SearchField("f", self.inner())))
+            elif k == "fieldgroup":
+                pool.append(self.fin(T.SearchField("g", self.fin(T.FieldGroup(self.inner())))))
+            elif k == "not":
+                pool.append(self.fin(r.choice([T.Not, T.Plus, T.Prohibit])(self.inner())))
+            elif k == "leaf":
+                pool.append(r.choice([self.leaf(), T.NONE_ITEM]))
+            elif k == "op":
+                pool.append(self.inner())
+            else:
+                g = self.fin(T.Group(self.inner()))
+                pool.append(self.fin(T.Group(self.fin(T.AndOperation(g, g)))))
+
+        def ops(d, top):
+            if not top and (d <= 0 or r.random() < 0.45):
+                x = r.random()
+                if x < 0.75:
+                    return r.choice(pool)
+                if x < 0.85:
+                    return self.fin(T.Group(r.choice(pool)))       # the shared object below a distinct one
+                return self.leaf()
+            k = r.choice([T.AndOperation, T.OrOperation, T.UnknownOperation, T.UnknownOperation, T.BoolOperation])
+            return self.fin(k(*[ops(d - 1, False) for _ in range(r.choice([1, 2, 2, 3, 3, 4]))]))
+        t = ops(depth, True)
+        if r.random() < 0.15:
+            t = self.fin(T.Group(t))                                # a non-operation root: one key for all
+        return t
+
+    def graft(self, tree):
+        """make one object of `tree` occur at a second position (neither position above the other); in place"""
+        r = self.r
+        nodes = [(p, n) for p, n in gentree.all_nodes(tree) if p]
+        for _ in range(8):
+            if len(nodes) < 2:
+                break
+            (p, o), (q, _) = r.sample(nodes, 2)
+            if p[:len(q)] == q or q[:len(p)] == p:
+                continue
+            parent = node_at(tree, q[:-1])
+            kids = list(parent.children)
+            kids[q[-1]] = o
+            parent.children = kids
+            break
+        return tree
+
+
 QUERIES = [
     "a b OR c d (e f AND g h) x:(i j)",
     "a b",
@@ -138,6 +217,42 @@ QUERIES = [
     "(c d (a AND b) e f) g h",
     "(x OR y) ((a b) (c d)) e f",
 ]
+
+
+def shared_corpus(T):
+    """trees in which one node OBJECT occurs at several positions (finding F24 and its neighbourhood)"""
+    W = T.Word
+    U, A, O, B, G, F = (T.UnknownOperation, T.AndOperation, T.OrOperation, T.BoolOperation, T.Group,
+                        T.SearchField)
+    def g():       # implicit before explicit OR: resolved to AND on its own
+        return G(U(W("x"), O(W("a"), W("b"))))
+    out = []
+    x = g(); out.append(A(x, x))                                   # the witness of F24
+    x = g(); out.append(U(x, W("y"), x))
+    x = g(); out.append(U(x, x, x))
+    x = g(); out.append(O(x, A(x)))                                # below nested operations: still a key
+    x = g(); out.append(B(x, x))                                   # Bool root: one dict per occurrence, no leak
+    x = g(); out.append(B(A(x), A(x)))                             # two dicts
+    x = g(); out.append(B(A(x, x)))                                # one dict
+    x = g(); out.append(B(A(x), A(x, W("y"), x)))
+    x = g(); out.append(G(A(x, x)))                                # non-operation root: the root is the only key
+    x = g(); out.append(A(F("f", x), F("h", x)))                   # shared group inside two different fields
+    x = g(); out.append(A(G(x), G(x)))                             # shared below distinct keys
+    x = g(); out.append(A(x, G(x)))
+    x = F("f", g()); out.append(A(x, x))                           # shared field
+    x = F("f", T.FieldGroup(U(W("x"), O(W("a"), W("b"))))); out.append(U(x, x))
+    x = T.Not(U(W("x"), O(W("a"), W("b")))); out.append(A(x, x))   # shared negation
+    x = G(U(O(W("a"), W("b")), W("x"))); out.append(A(x, x))       # the implicit one is visited before its operand
+    x = G(B(O(W("a"), W("b")), U(W("x"), W("y")))); out.append(A(x, x))   # implicit AFTER the explicit one: OR anyway
+    x = G(U(W("x"), A(W("a"), W("b")))); out.append(A(x, x))       # last explicit is AND: the default anyway
+    x = G(U(W("x"), O(W("a")), A(W("c")))); out.append(A(x, x))    # OR then AND: AND is remembered
+    x = G(U(W("x"), A(W("c")), O(W("a")))); out.append(A(x, x))    # AND then OR: OR is remembered
+    x = G(U(U(W("x"), W("y")), G(U(W("z"), W("t"))), O(W("a")), U(W("u"), W("v")))); out.append(O(x, x))
+    x = U(W("x"), O(W("a"), W("b"))); out.append(A(x, x))          # shared OPERATION object: not a key
+    x = W("x"); out.append(U(x, x, O(x, x)))                       # shared leaf
+    x = g(); y = G(U(W("p"), O(W("q")))); out.append(U(x, y, x, y))
+    x = g(); x.head = " "; x.tail = "\t"; setattr(x, "_luqum_name", "shared"); out.append(A(x, x, pos=1, size=9))
+    return out
 
 
 def corpus(T):
@@ -231,6 +346,94 @@ def node_at(tree, path):
     for i in path:
         tree = tree.children[i]
     return tree
+
+
+# ------------------------------------------------------------------ object sharing (finding F24)
+
+def sharing_groups(tree):
+    """[[path, path, ...]] for every node object that occurs at two or more positions"""
+    by_id = {}
+    for p, n in gentree.all_nodes(tree):
+        by_id.setdefault(id(n), []).append(list(p))
+    return [ps for ps in by_id.values() if len(ps) > 1]
+
+
+def unshare(node):
+    """an equal tree (same classes, attributes, layout, names, flags) made of FRESH, pairwise distinct objects
+    (copy.deepcopy would keep the sharing)"""
+    new = copy.copy(node)
+    kids = [unshare(c) for c in node.children]
+    if kids:
+        new.children = kids
+    return new
+
+
+def key_positions(T, tree):
+    """[(path, node, owner)]: the positions whose object can be a key of the Lucene-mode memory, i.e. what
+    `_first_nonop_parent` returns for the nodes below: a node that is not a BaseOperation with only
+    BaseOperations above it.  owner = path of the topmost And/Or/Unknown operation above it — the node in whose
+    context the dict is created and below which it is inherited; None when there is none (then a dict is created
+    further down, separately inside every occurrence)"""
+    explicit_or_unknown = (T.AndOperation, T.OrOperation, T.UnknownOperation)
+    out = []
+
+    def go(n, p, owner):
+        if not isinstance(n, T.BaseOperation):
+            out.append((p, n, owner))
+            return
+        if owner is None and isinstance(n, explicit_or_unknown):
+            owner = p
+        for i, c in enumerate(n.children):
+            go(c, p + (i,), owner)
+    go(tree, (), None)
+    return out
+
+
+def shared_keys(T, tree):
+    """the coarse class of F24: some object that can be a memory key occurs at two positions below the same dict"""
+    groups = {}
+    for p, n, owner in key_positions(T, tree):
+        if owner is not None:
+            groups.setdefault((id(n), owner), []).append((p, n))
+    return [occ for occ in groups.values() if len(occ) > 1]
+
+
+def f24_positions(T, tree):
+    """the EXACT class of F24, a predicate on the input (Lucene mode): the paths of the implicit operations that
+    the code resolves to OR although the Lucene rule, judged inside their own group, says AND.
+    For an object o of `shared_keys`: every node inside o uses id(o) as its key, so after the first occurrence the
+    memory holds the class of the LAST And/Or inside o (visit order); in the 2nd.. occurrences the implicit
+    operations that come BEFORE the first And/Or of o read it instead of the default.  They deviate iff that last
+    explicit operation is an OrOperation (AND is the default anyway)."""
+    pos = []
+    for occ in shared_keys(T, tree):
+        o = occ[0][1]
+        seq = [(q, n) for q, n in gentree.all_nodes(o)
+               if isinstance(n, (T.AndOperation, T.OrOperation, T.UnknownOperation))]
+        explicit = [n for _, n in seq if not isinstance(n, T.UnknownOperation)]
+        if not explicit or not isinstance(explicit[-1], T.OrOperation):
+            continue
+        early = []
+        for q, n in seq:
+            if not isinstance(n, T.UnknownOperation):
+                break
+            early.append(q)
+        for p, _ in occ[1:]:
+            pos += [p + q for q in early]
+    return sorted(pos)
+
+
+def flipped_to_or(T, ref, positions):
+    """a copy of `ref` (a result: no shared object) in which the operations at `positions` are OrOperations"""
+    ref = copy.deepcopy(ref)
+    for p in positions:
+        old = node_at(ref, p)
+        new = T.OrOperation(*old.children, pos=old.pos, size=old.size, head=old.head, tail=old.tail)
+        parent = node_at(ref, p[:-1])
+        kids = list(parent.children)
+        kids[p[-1]] = new
+        parent.children = kids
+    return ref
 
 
 def oracle(T, tree, out, tgcls, ah, snapshot_attrs):
@@ -328,6 +531,7 @@ def correspond(model_ok, res):
 
     rg = RGen(r, T)
     trees = [(t, "corpus") for t in corpus(T)]
+    trees += [(t, "corpus-shared-objects") for t in shared_corpus(T)]
     trees += [(parser.parse(q), "parsed") for q in QUERIES]
     opsonly = ["unk", "unk", "and", "or", "bool", "group", "group", "field", "fieldgroup", "not", "leaf"]
     def has_unknown(t):
@@ -349,12 +553,20 @@ def correspond(model_ok, res):
             trees.append((pick(lambda: rg.tree(r.randrange(8, 30), r.randrange(4, 8), opsonly)), "random-ops-large"))
         else:
             trees.append((pick(lambda: rg.tree(r.randrange(4, 16), r.randrange(2, 6))), "random-mixed"))
+        trees.append((pick(lambda: rg.stree(r.randrange(1, 4))), "random-shared-objects"))
+        if i % 4 == 0:
+            trees.append((rg.graft(pick(lambda: rg.ltree(r.randrange(3, 6)))), "random-lucene-shapes-grafted"))
 
     cases, payloads = [], []
     seen = set()
     dist = {"source": {}, "target": {}, "add_head": {}, "unknown_ops_per_tree": {}, "explicit_ops_per_tree": {},
             "lucene_some_unknown_became_or": 0, "lucene_trees_refuting_wrong_store_model": {"single_global_dict": 0, "innermost_nonop_key": 0},
-            "truth_tables_checked": 0, "max_operands": {}}
+            "truth_tables_checked": 0, "max_operands": {},
+            "object_sharing": {"trees_with_a_shared_object": 0, "trees_with_a_shared_memory_key": 0,
+                               "trees_in_the_exact_class_of_F24": 0, "lucene_calls_deviating_F24": 0,
+                               "lucene_calls_predicted_F24_but_not_deviating": 0,
+                               "calls_on_shared_trees_equal_to_unshared": 0}}
+    sh = dist["object_sharing"]
     flags = ("_implicit_degree", "implicit_force")
     for tree, src in trees:
         desc = gentree.describe(tree)
@@ -362,11 +574,19 @@ def correspond(model_ok, res):
         n_unk = len([1 for _, n in nodes if type(n) is T.UnknownOperation])
         n_exp = len([1 for _, n in nodes if type(n) in (T.AndOperation, T.OrOperation)])
         maxw = max([len(n.children) for _, n in nodes if isinstance(n, T.BaseOperation)] or [0])
+        shared = sharing_groups(tree)
+        predicted = f24_positions(T, tree) if shared else []
+        if shared:
+            sh["trees_with_a_shared_object"] += 1
+            sh["trees_with_a_shared_memory_key"] += int(bool(shared_keys(T, tree)))
+            sh["trees_in_the_exact_class_of_F24"] += int(bool(predicted))
         for tgname, tgcls in targets(T):
             for ah in ADD_HEADS:
                 before = lib.g_item(tree)
                 payload = {"tree": desc[:1500], "printed": tree.__str__(head_tail=True)[:300],
                            "resolve_to": tgname, "add_head": ah}
+                if shared:
+                    payload["same_object_at_paths"] = shared[:6]
                 try:
                     out = UnknownOperationResolver(resolve_to=tgcls, add_head=ah)(tree)
                 except Exception as e:
@@ -381,6 +601,35 @@ def correspond(model_ok, res):
                     res.failures.append((dict(payload, why="the module-level placeholder NONE_ITEM was modified: "
                                               "head=%r tail=%r" % (T.NONE_ITEM.head, T.NONE_ITEM.tail)), None))
                     T.NONE_ITEM.head = T.NONE_ITEM.tail = ""      # repair so that later cases are judged on their own
+                # object sharing: the result must be the one of an equal tree made of distinct objects (every
+                # position judged by the rule applied to its own, unshared, surroundings); the value-based model
+                # is compared with that one
+                expect = out
+                if shared:
+                    fresh_in = unshare(tree)
+                    if lib.g_item(fresh_in) != before or sharing_groups(fresh_in):
+                        raise AssertionError("unshare does not give an equal tree of distinct objects")
+                    expect = UnknownOperationResolver(resolve_to=tgcls, add_head=ah)(fresh_in)
+                    g_exp, g_got = lib.g_item(expect), lib.g_item(out)
+                    pred = predicted if tgcls is None else []
+                    if g_exp == g_got:
+                        sh["calls_on_shared_trees_equal_to_unshared"] += 1
+                        if pred:
+                            sh["lucene_calls_predicted_F24_but_not_deviating"] += 1
+                    else:
+                        differ = [list(p) for (p, a), (_, b) in zip(gentree.all_nodes(out), gentree.all_nodes(expect))
+                                  if type(a) is not type(b)]
+                        fid = None
+                        if pred and lib.g_item(flipped_to_or(T, expect, pred)) == g_got:
+                            fid = "F24"
+                            sh["lucene_calls_deviating_F24"] += 1
+                        res.failures.append((dict(
+                            payload, why="the result depends on object identity: one node object occurs at several "
+                            "positions of the input and the result differs from the result on an equal tree made "
+                            "of distinct objects (Lucene rule judged inside each group)",
+                            classes_differ_at_paths=differ[:10], predicted_by_f24_positions=[list(p) for p in pred][:10],
+                            result=gentree.describe(out)[:1500], result_on_distinct_objects=gentree.describe(expect)[:1500]),
+                            fid))
                 why = oracle(T, tree, out, tgcls, ah, flags)
                 if why is None:
                     why, checked = same_meaning(T, tree, out, tgcls)
@@ -394,10 +643,10 @@ def correspond(model_ok, res):
                         why = "resolving the result again modified its input"
                 if why:
                     res.failures.append((dict(payload, why=why, result=gentree.describe(out)[:1500]), None))
-                cases.append("(%s, %s, %s, Some %s)" % (tgname, lib.g_str(ah), before, lib.g_item(out)))
+                cases.append("(%s, %s, %s, Some %s)" % (tgname, lib.g_str(ah), before, lib.g_item(expect)))
                 payloads.append(payload)
                 if n_unk:
-                    seen.add((desc, tree.__str__(head_tail=True), tgname, ah))
+                    seen.add((desc, tree.__str__(head_tail=True), tgname, ah, repr(shared)))
                 dist["target"][tgname] = dist["target"].get(tgname, 0) + 1
                 dist["add_head"][repr(ah)] = dist["add_head"].get(repr(ah), 0) + 1
                 if tgcls is None and ah == " ":
@@ -506,8 +755,11 @@ def correspond(model_ok, res):
     res.nontrivial = len(seen)
     res.rule = ("fixed corpus aimed at the Lucene-mode memory (explicit operators before/after/inside groups, "
                 "fields, Bool roots), %d parsed queries, random trees of groups/fields/unary/And/Or/Unknown/Bool "
-                "with 0-6 operands plus arbitrary sub-trees, each x 4 targets x add_head in (' ', '', '\\n'); "
-                "non-trivial = distinct (tree, target, add_head) whose tree holds an UnknownOperation"
+                "with 0-6 operands plus arbitrary sub-trees, and trees in which one node OBJECT occurs at several "
+                "positions (fixed corpus around F24, operations over a pool of reused groups / fields / negations / "
+                "words / operations, random grafts), each x 4 targets x add_head in (' ', '', '\\n'); "
+                "non-trivial = distinct (tree, sharing pattern, target, add_head) whose tree holds an "
+                "UnknownOperation"
                 % len(QUERIES))
     res.samples = [p for p in payloads if p.get("resolve_to") == "None"][30:36]
     res.distribution = dist
@@ -537,12 +789,19 @@ SPEC = {
     "theorems": ["C10_total", "C10_invalid_target", "C10_no_unknown_left", "C10_structure",
                  "C10_copy_keeps", "C10_explicit_target", "C10_lucene_and_or", "C10_lucene_default_and",
                  "C10_same_meaning", "C10_same_meaning_explicit", "C10_meaning_needs_std_attrs",
-                 "C10_idempotent", "C10_calls_independent"],
+                 "C10_idempotent", "C10_content_kept", "C10_content_needs_std_node", "C10_calls_independent"],
     "correspond": correspond,
     "statement": "resolve never fails on a valid target; no UnknownOperation left; every node of the result is "
                  "the default copy of the node at the same path (Unknown -> target / And|Or), heads prefixed "
                  "by add_head exactly on operands 2.. of resolved operations; And throughout without explicit "
-                 "operator; same boolean reading; resolving again returns the same tree",
+                 "operator; same boolean reading; resolving again returns the same tree (no guard); a node that is "
+                 "not an implicit operation keeps its class, and keeps its content attributes iff it is as the "
+                 "constructors build it (C10_content_kept; the guard is per node and exact). SCOPE: every theorem "
+                 "is about trees WITHOUT OBJECT SHARING — the model is value-based and has no object identity; on a "
+                 "tree in which one node object occurs at several positions the code's Lucene-like mode is not a "
+                 "function of the tree's value (known finding F24: the memory is keyed by id() of the outermost "
+                 "non-operation ancestor). The harness feeds such trees to the code, requires the result of an equal "
+                 "tree of distinct objects at every position, and classifies deviations by f24_positions(input)",
     "trusted_base": [
         "Coq 8.16.1 kernel (vm_compute used for table facts, witnesses and correspondence; no native_compute)",
         "no axioms (Print Assumptions: closed under the global context)",
@@ -550,14 +809,19 @@ SPEC = {
         "hand-written model coq/model/Resolver.v (context copies, last_operation dict store, traversal) and "
         "coq/model/Eq.v clone_item, tied by differential correspondence (harness/c10.py) on every run",
         "DEFAULT_OPERATION / VALID_OPERATIONS hard-coded in the model, compared with the class at run time",
-        "value-based tree model: id(parent) is represented by the parent's path (no node object occurs twice)",
+        "value-based tree model: id(parent) is represented by the parent's path; exact only when no node object "
+        "occurs twice (else: finding F24, examples C10_F24_model_answer / C10_F24_code_answer_differs); on inputs "
+        "with shared objects the model is compared with the code's result on an unshared equal tree",
         "'input not modified' and 'no node shared with the input' are checked by snapshots only",
     ],
-    "assumptions": ["trees contain only luqum.tree classes; no node object occurs at two positions",
+    "assumptions": ["trees contain only luqum.tree classes",
+                    "no node object occurs at two positions of the input (theorems; the model has no identity). "
+                    "Outside this assumption the code deviates exactly on the class of F24 (harness: f24_positions)",
                     "C10_calls_independent is immediate in a pure model (a call has no access to a previous one); "
                     "what ties it to the code is the call-sequence correspondence of harness/c10.py: one resolver "
                     "instance reused on histories of 2-6 trees, every result compared with a fresh resolver "
                     "(oracle) and with the model",
-                    "same-meaning / idempotence theorems: attribute values as the constructors produce them "
-                    "(implicit degree/force hold their default, boost force normalised)"],
+                    "same-meaning theorems: attribute values as the constructors produce them (implicit "
+                    "degree/force hold their default, boost force normalised); needed (C10_meaning_needs_std_attrs); "
+                    "idempotence has no such guard; content kept iff std_node, node by node"],
 }
